@@ -1,14 +1,18 @@
 import Panacea.Generated.Code
 import Panacea.Model.Pnft
 import Panacea.Lemmas.RawStore
+import Panacea.Refine.CompKey
 /-!
 # Refinement: the translated `x/pnft` types, keeper and message server compute the hand-written model
 
 `Gen.pnfttypes.*` / `Gen.pnftkeeper.*` are regenerated from `/repo/x/pnft` on every run.  The SDK's `x/nft`
 keeper they call is the hand-written `Go.Nft` (tie D); classes and NFTs are stored with their `data` as a
 protobuf `Any` of `DenomMeta` / `PNFTMeta`.  `abs` decodes them into the typed state of `Model/Pnft.lean`; the
-theorems say that stateless validation accepts exactly what `pnftValidateBasic` accepts and that each message
-handler, run on a well-formed world, does what `Pnft.handle` does on `abs` of that world.
+theorems say that stateless validation accepts exactly what `pnftValidateBasic` accepts, that each of the seven
+message handlers, run on a well-formed world, does what `Pnft.handle` does on `abs` of that world (`SimP`), and
+that this lifts to every history of timed requests (`goRun_abs`).  Parameters, not axioms: the bech32 codec
+(`EncNil`: the empty address renders as the empty string) and the protobuf codec of the two `Any` payloads
+(`LawfulProto`: decoding inverts encoding).
 -/
 namespace Panacea.Refine.Pnft
 open Panacea Panacea.Gen Panacea.Go Panacea.Validate
@@ -483,6 +487,630 @@ theorem updateDenom_refines (bech : Go.Bech32) (now : Int) (w : Nft.World) (hwf 
         simp only [he, P.ok_bind, Option.isNone_some, Bool.not_false, if_true, SimP, P.pure_eq]; rfl
   · simp only [ho, hg, P.ok_bind, Option.isNone_some, Bool.not_false, if_true, Outcome.err_bind, SimP, P.pure_eq]; rfl
   · simp only [ho, hg, P.panic_bind, Outcome.panic_bind, SimP]; exact ⟨_, rfl⟩
+
+theorem hasClass_of_get (w : Nft.World) (id : Bytes) (c : Nft.Class) (h : w.classes.get id = some c) :
+    Nft.hasClass w id = true := by unfold Nft.hasClass Map.has; rw [h]; rfl
+
+theorem transferDenomOwner_none (w : Nft.World) (id s r : Bytes) (h : w.classes.get id = none) :
+    ∃ e, pnftkeeper.Keeper.TransferDenomOwner id s r w = P.ok (some e, w) := by
+  unfold pnftkeeper.Keeper.TransferDenomOwner
+  simp only [getDenom_none w id h, P.ok_bind, Option.isNone_some, Bool.not_false, if_true, P.pure_eq]
+  exact ⟨_, rfl⟩
+
+theorem transferDenomOwner_perm (w : Nft.World) (hwf : WF w) (id s r : Bytes) (c : Nft.Class)
+    (h : w.classes.get id = some c) (hown : s ≠ (metaD c).Owner) :
+    ∃ e, pnftkeeper.Keeper.TransferDenomOwner id s r w = P.ok (some e, w) := by
+  unfold pnftkeeper.Keeper.TransferDenomOwner
+  have hown' : s ≠ (denomOf c).Owner := hown
+  simp only [getDenom_some w hwf id c h, P.ok_bind, Option.isNone_none, Bool.not_true, Bool.false_eq_true, if_false,
+    deref_some, hown', decide_true, if_true, P.pure_eq, ne_eq, not_false_eq_true]
+  exact ⟨_, rfl⟩
+
+theorem transferDenomOwner_run (w : Nft.World) (hwf : WF w) (id s r : Bytes) (c : Nft.Class)
+    (h : w.classes.get id = some c) (hown : s = (metaD c).Owner) :
+    pnftkeeper.Keeper.TransferDenomOwner id s r w =
+      P.ok (none, { w with classes := w.classes.set id (classOf { denomOf c with Owner := r }) }) := by
+  unfold pnftkeeper.Keeper.TransferDenomOwner
+  have hown' : ¬ (s ≠ (denomOf c).Owner) := fun hne => hne hown
+  have hh : Nft.hasClass w (classOf { denomOf c with Owner := r }).Id = true := by
+    show Nft.hasClass w c.Id = true
+    rw [hwf.classKey _ _ h]; exact hasClass_of_get w id c h
+  simp only [getDenom_some w hwf id c h, P.ok_bind, Option.isNone_none, Bool.not_true, Bool.false_eq_true, if_false,
+    deref_some, hown', decide_false, newClassFromDenom_run, Nft.updateClass, hh, P.pure_eq]
+  show P.ok (none, { w with classes := w.classes.set c.Id _ }) = _
+  rw [hwf.classKey _ _ h]
+
+theorem transferDenom_refines (bech : Go.Bech32) (now : Int) (w : Nft.World) (hwf : WF w)
+    (m : pnfttypes.MsgTransferDenomRequest) :
+    SimP pnfttypes.ErrTransferDenom w (pnftkeeper.msgServer.TransferDenom bech (some m) w)
+      (Pnft.handle (codec bech) now (abs w) (toTransferDenom m)) := by
+  unfold pnftkeeper.msgServer.TransferDenom Pnft.handle
+  rcases vb_split (transferDenom_vb bech m) with ⟨ho, hg⟩ | ⟨c, e, ho, hg⟩ | ⟨s, t, ho, hg⟩
+  · simp only [ho, hg, P.ok_bind, Option.isNone_none, Bool.not_true, Bool.false_eq_true, if_false, deref_some,
+      Outcome.ok_bind, Outcome.pure_eq]
+    simp only [toTransferDenom, getClass_abs]
+    cases hc : w.classes.get m.Id with
+    | none =>
+      obtain ⟨e, he⟩ := transferDenomOwner_none w m.Id m.Sender m.Receiver hc
+      simp only [he, P.ok_bind, Option.isNone_some, Bool.not_false, if_true, Option.map_none, SimP, P.pure_eq]; rfl
+    | some c =>
+      simp only [Option.map_some]
+      by_cases hown : m.Sender = (metaD c).Owner
+      · have hown' : ¬ (m.Sender ≠ (toClass c).owner) := fun hne => hne hown
+        rw [if_neg hown']
+        simp only [transferDenomOwner_run w hwf m.Id m.Sender m.Receiver c hc hown, P.ok_bind, Option.isNone_none,
+          Bool.not_true, Bool.false_eq_true, if_false, SimP, P.pure_eq]
+        refine ⟨default, _, rfl, ?_, ?_⟩
+        · exact (abs_setClass' w m.Id _).trans rfl
+        · exact wf_setClass' w hwf m.Id _ (hwf.classKey _ _ hc)
+      · obtain ⟨e, he⟩ := transferDenomOwner_perm w hwf m.Id m.Sender m.Receiver c hc hown
+        have hown' : m.Sender ≠ (toClass c).owner := hown
+        rw [if_pos hown']
+        simp only [he, P.ok_bind, Option.isNone_some, Bool.not_false, if_true, SimP, P.pure_eq]; rfl
+  · simp only [ho, hg, P.ok_bind, Option.isNone_some, Bool.not_false, if_true, Outcome.err_bind, SimP, P.pure_eq]; rfl
+  · simp only [ho, hg, P.panic_bind, Outcome.panic_bind, SimP]; exact ⟨_, rfl⟩
+
+theorem classStoreKey_run (id : Bytes) : pnftkeeper.classStoreKey id = P.ok (0x01 :: id) := by
+  unfold pnftkeeper.classStoreKey
+  have hl : Go.len Go.Nft.classKey + Go.len id = ((1 + id.length : Nat) : Int) := by
+    unfold Go.len Go.Nft.classKey; simp
+  have h1 : Go.len Go.Nft.classKey = (([] : Bytes).length + 1 : Nat) := rfl
+  rw [hl, Panacea.Refine.CompKey.make_ok]
+  simp only [P.ok_bind]
+  have hr : List.replicate (1 + id.length) (default : UInt8) = [] ++ List.replicate (1 + id.length) default := rfl
+  have c1 := Panacea.Refine.CompKey.copyAt_append [] (List.replicate (1 + id.length) (default : UInt8)) Go.Nft.classKey
+    (by simp [Go.Nft.classKey])
+  simp only [List.nil_append, List.length_nil, Int.cast_ofNat_Int] at c1
+  rw [c1]
+  simp only [P.ok_bind]
+  have hd : (List.replicate (1 + id.length) (default : UInt8)).drop Go.Nft.classKey.length = List.replicate id.length default := by
+    simp [Go.Nft.classKey]
+  rw [hd]
+  have c2 := Panacea.Refine.CompKey.copyAt_append Go.Nft.classKey (List.replicate id.length (default : UInt8)) id (by simp)
+  have hk : (Go.Nft.classKey.length : Int) = Go.len Go.Nft.classKey := rfl
+  rw [hk] at c2
+  rw [c2]
+  simp [Go.Nft.classKey]
+
+theorem deleteDenom_none (w : Nft.World) (id r : Bytes) (h : w.classes.get id = none) :
+    ∃ e, pnftkeeper.Keeper.DeleteDenom id r w = P.ok (some e, w) := by
+  unfold pnftkeeper.Keeper.DeleteDenom
+  simp only [getDenom_none w id h, P.ok_bind, Option.isNone_some, Bool.not_false, if_true, P.pure_eq]
+  exact ⟨_, rfl⟩
+
+theorem deleteDenom_perm (w : Nft.World) (hwf : WF w) (id r : Bytes) (c : Nft.Class)
+    (h : w.classes.get id = some c) (hown : r ≠ (metaD c).Owner) :
+    ∃ e, pnftkeeper.Keeper.DeleteDenom id r w = P.ok (some e, w) := by
+  unfold pnftkeeper.Keeper.DeleteDenom
+  have hown' : r ≠ (denomOf c).Owner := hown
+  simp only [getDenom_some w hwf id c h, P.ok_bind, Option.isNone_none, Bool.not_true, Bool.false_eq_true, if_false,
+    deref_some, hown', decide_true, if_true, P.pure_eq, ne_eq, not_false_eq_true]
+  exact ⟨_, rfl⟩
+
+theorem deleteDenom_supply (w : Nft.World) (hwf : WF w) (id r : Bytes) (c : Nft.Class)
+    (h : w.classes.get id = some c) (hown : r = (metaD c).Owner) (hs : Nft.getTotalSupply w id ≠ 0) :
+    ∃ e, pnftkeeper.Keeper.DeleteDenom id r w = P.ok (some e, w) := by
+  unfold pnftkeeper.Keeper.DeleteDenom
+  have hown' : ¬ (r ≠ (denomOf c).Owner) := fun hne => hne hown
+  have hs' : Nft.getTotalSupply w id > 0 := by omega
+  simp only [getDenom_some w hwf id c h, P.ok_bind, Option.isNone_none, Bool.not_true, Bool.false_eq_true, if_false,
+    deref_some, hown', decide_false, hs', decide_true, if_true, P.pure_eq]
+  exact ⟨_, rfl⟩
+
+theorem deleteDenom_run (w : Nft.World) (hwf : WF w) (id r : Bytes) (c : Nft.Class)
+    (h : w.classes.get id = some c) (hown : r = (metaD c).Owner) (hs : Nft.getTotalSupply w id = 0) :
+    pnftkeeper.Keeper.DeleteDenom id r w = P.ok (none, { w with classes := w.classes.del id }) := by
+  unfold pnftkeeper.Keeper.DeleteDenom
+  have hown' : ¬ (r ≠ (denomOf c).Owner) := fun hne => hne hown
+  have hs' : ¬ (Nft.getTotalSupply w id > 0) := by omega
+  simp only [getDenom_some w hwf id c h, P.ok_bind, Option.isNone_none, Bool.not_true, Bool.false_eq_true, if_false,
+    deref_some, hown', decide_false, hs', classStoreKey_run, Nft.rawDelete, P.pure_eq]
+
+theorem wf_delClass (w : Nft.World) (hwf : WF w) (id : Bytes) : WF { w with classes := w.classes.del id } := by
+  constructor
+  · intro k c h
+    by_cases hk : k = id
+    · subst hk; rw [Map.get_del_eq] at h; cases h
+    · rw [Map.get_del_ne _ _ _ hk] at h; exact hwf.classKey k c h
+  · intro k c h
+    by_cases hk : k = id
+    · subst hk; rw [Map.get_del_eq] at h; cases h
+    · rw [Map.get_del_ne _ _ _ hk] at h; exact hwf.classDec k c h
+  · exact hwf.nftDec
+
+theorem abs_delClass (w : Nft.World) (id : Bytes) :
+    abs { w with classes := w.classes.del id } = { abs w with classes := (abs w).classes.del id } := by
+  unfold abs
+  simp only [Map.del_mapVals]
+
+theorem deleteDenom_refines (bech : Go.Bech32) (now : Int) (w : Nft.World) (hwf : WF w)
+    (m : pnfttypes.MsgDeleteDenomRequest) :
+    SimP pnfttypes.ErrDeleteDenom w (pnftkeeper.msgServer.DeleteDenom bech (some m) w)
+      (Pnft.handle (codec bech) now (abs w) (toDeleteDenom m)) := by
+  unfold pnftkeeper.msgServer.DeleteDenom Pnft.handle
+  rcases vb_split (deleteDenom_vb bech m) with ⟨ho, hg⟩ | ⟨c, e, ho, hg⟩ | ⟨s, t, ho, hg⟩
+  · simp only [ho, hg, P.ok_bind, Option.isNone_none, Bool.not_true, Bool.false_eq_true, if_false, deref_some,
+      Outcome.ok_bind, Outcome.pure_eq]
+    simp only [toDeleteDenom, getClass_abs]
+    cases hc : w.classes.get m.Id with
+    | none =>
+      obtain ⟨e, he⟩ := deleteDenom_none w m.Id m.Remover hc
+      simp only [he, P.ok_bind, Option.isNone_some, Bool.not_false, if_true, Option.map_none, SimP, P.pure_eq]; rfl
+    | some c =>
+      simp only [Option.map_some]
+      by_cases hown : m.Remover = (metaD c).Owner
+      · have hown' : ¬ (m.Remover ≠ (toClass c).owner) := fun hne => hne hown
+        rw [if_neg hown']
+        have hsup : Pnft.getSupply (abs w) m.Id = Nft.getTotalSupply w m.Id := rfl
+        by_cases hs : Nft.getTotalSupply w m.Id = 0
+        · have hs' : ¬ (Pnft.getSupply (abs w) m.Id ≠ 0) := by rw [hsup]; exact fun hne => hne hs
+          rw [if_neg hs']
+          simp only [deleteDenom_run w hwf m.Id m.Remover c hc hown hs, P.ok_bind, Option.isNone_none,
+            Bool.not_true, Bool.false_eq_true, if_false, SimP, P.pure_eq]
+          exact ⟨default, _, rfl, abs_delClass w m.Id, wf_delClass w hwf m.Id⟩
+        · have hs' : Pnft.getSupply (abs w) m.Id ≠ 0 := by rw [hsup]; exact hs
+          rw [if_pos hs']
+          obtain ⟨e, he⟩ := deleteDenom_supply w hwf m.Id m.Remover c hc hown hs
+          simp only [he, P.ok_bind, Option.isNone_some, Bool.not_false, if_true, SimP, P.pure_eq]; rfl
+      · obtain ⟨e, he⟩ := deleteDenom_perm w hwf m.Id m.Remover c hc hown
+        have hown' : m.Remover ≠ (toClass c).owner := hown
+        rw [if_pos hown']
+        simp only [he, P.ok_bind, Option.isNone_some, Bool.not_false, if_true, SimP, P.pure_eq]; rfl
+  · simp only [ho, hg, P.ok_bind, Option.isNone_some, Bool.not_false, if_true, Outcome.err_bind, SimP, P.pure_eq]; rfl
+  · simp only [ho, hg, P.panic_bind, Outcome.panic_bind, SimP]; exact ⟨_, rfl⟩
+
+/-! ## tokens -/
+
+def pnftOf (bech : Go.Bech32) (w : Nft.World) (denomId id : Bytes) (n : Nft.NFT) : pnfttypes.Pnft :=
+  { DenomId := n.ClassId, Id := n.Id, Name := (metaN n).Name, Description := (metaN n).Description, Uri := n.Uri,
+    UriHash := n.UriHash, Data := (metaN n).Data, Creator := (metaN n).Creator,
+    Owner := bech.enc (Nft.getOwner w denomId id), CreatedAt := (metaN n).CreatedAt }
+
+theorem getPNFT_none (bech : Go.Bech32) (w : Nft.World) (d i : Bytes) (h : w.nfts.get (Pnft.nftKey d i) = none) :
+    ∃ e, pnftkeeper.Keeper.GetPNFT bech d i w = P.ok (none, some e, w) := by
+  unfold pnftkeeper.Keeper.GetPNFT Nft.getNFT
+  simp only [h, Bool.not_false, if_true, P.pure_eq]
+  exact ⟨_, rfl⟩
+
+theorem getPNFT_some (bech : Go.Bech32) (w : Nft.World) (hwf : WF w) (d i : Bytes) (n : Nft.NFT)
+    (h : w.nfts.get (Pnft.nftKey d i) = some n) :
+    pnftkeeper.Keeper.GetPNFT bech d i w = P.ok (some (pnftOf bech w d i n), none, w) := by
+  unfold pnftkeeper.Keeper.GetPNFT Nft.getNFT
+  simp only [h, Bool.not_true, Bool.false_eq_true, if_false, hwf.nftDec _ n h, Option.isNone_none, P.pure_eq]
+  rfl
+
+theorem getNft_abs (w : Nft.World) (k : Bytes) : (abs w).nfts.get k = (w.nfts.get k).map toNft := by
+  unfold abs; simp only [Map.get_mapVals]
+
+/-- `AccAddress.String()` of the empty address is the empty string -/
+def EncNil (bech : Go.Bech32) : Prop := bech.enc [] = []
+
+theorem ownerText_eq (bech : Go.Bech32) (he : EncNil bech) (o : Bytes) : Pnft.ownerText (codec bech) o = bech.enc o := by
+  unfold Pnft.ownerText
+  by_cases h : o = []
+  · rw [if_pos h, h]; exact he.symm
+  · rw [if_neg h]; rfl
+
+theorem getPNFT_abs (bech : Go.Bech32) (he : EncNil bech) (w : Nft.World) (d i : Bytes) :
+    Pnft.getPNFT (codec bech) (abs w) d i =
+      (w.nfts.get (Pnft.nftKey d i)).map fun n => Pnft.toPnft (codec bech) (abs w) d i (toNft n) := by
+  unfold Pnft.getPNFT
+  rw [getNft_abs]
+  cases w.nfts.get (Pnft.nftKey d i) <;> rfl
+
+theorem owner_abs (bech : Go.Bech32) (he : EncNil bech) (w : Nft.World) (d i : Bytes) (n : Nft.NFT) :
+    (Pnft.toPnft (codec bech) (abs w) d i (toNft n)).owner = (pnftOf bech w d i n).Owner := by
+  unfold Pnft.toPnft pnftOf
+  exact ownerText_eq bech he _
+
+theorem hasNFT_of_get (w : Nft.World) (d i : Bytes) (n : Nft.NFT) (h : w.nfts.get (Pnft.nftKey d i) = some n) :
+    Nft.hasNFT w d i = true := by unfold Nft.hasNFT Map.has; rw [h]; rfl
+
+theorem burnPNFT_none (bech : Go.Bech32) (w : Nft.World) (d i b : Bytes) (h : w.nfts.get (Pnft.nftKey d i) = none) :
+    ∃ e, pnftkeeper.Keeper.BurnPNFT bech d i b w = P.ok (some e, w) := by
+  unfold pnftkeeper.Keeper.BurnPNFT
+  obtain ⟨e, he⟩ := getPNFT_none bech w d i h
+  simp only [he, P.ok_bind, Option.isNone_some, Bool.not_false, if_true, P.pure_eq]
+  exact ⟨_, rfl⟩
+
+theorem burnPNFT_perm (bech : Go.Bech32) (w : Nft.World) (hwf : WF w) (d i b : Bytes) (n : Nft.NFT)
+    (h : w.nfts.get (Pnft.nftKey d i) = some n) (hown : b ≠ (pnftOf bech w d i n).Owner) :
+    ∃ e, pnftkeeper.Keeper.BurnPNFT bech d i b w = P.ok (some e, w) := by
+  unfold pnftkeeper.Keeper.BurnPNFT
+  simp only [getPNFT_some bech w hwf d i n h, P.ok_bind, Option.isNone_none, Bool.not_true, Bool.false_eq_true, if_false,
+    deref_some, hown, decide_true, if_true, P.pure_eq, ne_eq, not_false_eq_true]
+  exact ⟨_, rfl⟩
+
+theorem burnPNFT_run (bech : Go.Bech32) (w : Nft.World) (hwf : WF w) (d i b : Bytes) (n : Nft.NFT)
+    (h : w.nfts.get (Pnft.nftKey d i) = some n) (hown : b = (pnftOf bech w d i n).Owner) :
+    pnftkeeper.Keeper.BurnPNFT bech d i b w =
+      P.ok (if Nft.hasClass w d then (none, (Nft.burn w d i).1) else (some "nft/4", w)) := by
+  unfold pnftkeeper.Keeper.BurnPNFT
+  have hown' : ¬ (b ≠ (pnftOf bech w d i n).Owner) := fun hne => hne hown
+  simp only [getPNFT_some bech w hwf d i n h, P.ok_bind, Option.isNone_none, Bool.not_true, Bool.false_eq_true, if_false,
+    deref_some, hown', decide_false, P.pure_eq]
+  unfold Nft.burn
+  rcases Bool.eq_false_or_eq_true (Nft.hasClass w d) with hc | hc
+  · simp only [hc, hasNFT_of_get w d i n h, Bool.not_true, Bool.false_eq_true, if_false, if_true, Option.isNone_none]
+  · simp only [hc, Bool.not_false, if_true, Option.isNone_some, Bool.false_eq_true, if_false]
+
+theorem wf_nfts (w : Nft.World) (hwf : WF w) (nfts' : Map Nft.NFT) (oi : Map Unit) (ow : Map Bytes) (su : Map Nat)
+    (hn : ∀ k n, nfts'.get k = some n → (Go.unmarshalE (Go.anyValue n.Data) : pnfttypes.PNFTMeta × Go.Err).2 = none) :
+    WF { w with nfts := nfts', ownerIdx := oi, owners := ow, supply := su } :=
+  ⟨hwf.classKey, hwf.classDec, hn⟩
+
+theorem burn_refines (bech : Go.Bech32) (he : EncNil bech) (now : Int) (w : Nft.World) (hwf : WF w)
+    (m : pnfttypes.MsgBurnPNFTRequest) :
+    SimP pnfttypes.ErrBurnPNFT w (pnftkeeper.msgServer.BurnPNFT bech (some m) w)
+      (Pnft.handle (codec bech) now (abs w) (toBurn m)) := by
+  unfold pnftkeeper.msgServer.BurnPNFT Pnft.handle
+  rcases vb_split (burn_vb bech m) with ⟨ho, hg⟩ | ⟨c, e, ho, hg⟩ | ⟨s, t, ho, hg⟩
+  · simp only [ho, hg, P.ok_bind, Option.isNone_none, Bool.not_true, Bool.false_eq_true, if_false, deref_some,
+      Outcome.ok_bind, Outcome.pure_eq]
+    simp only [toBurn, getPNFT_abs bech he]
+    cases hc : w.nfts.get (Pnft.nftKey m.DenomId m.Id) with
+    | none =>
+      obtain ⟨e, he'⟩ := burnPNFT_none bech w m.DenomId m.Id m.Burner hc
+      simp only [he', P.ok_bind, Option.isNone_some, Bool.not_false, if_true, Option.map_none, SimP, P.pure_eq]; rfl
+    | some n =>
+      simp only [Option.map_some, owner_abs bech he]
+      by_cases hown : m.Burner = (pnftOf bech w m.DenomId m.Id n).Owner
+      · have hown' : ¬ (m.Burner ≠ (pnftOf bech w m.DenomId m.Id n).Owner) := fun hne => hne hown
+        rw [if_neg hown']
+        simp only [burnPNFT_run bech w hwf m.DenomId m.Id m.Burner n hc hown, P.ok_bind, hasClass_abs]
+        rcases Bool.eq_false_or_eq_true (Nft.hasClass w m.DenomId) with hcl | hcl
+        · simp only [hcl, Bool.not_true, Bool.false_eq_true, if_false, if_true, Option.isNone_none, SimP, P.pure_eq]
+          refine ⟨default, _, rfl, ?_, ?_⟩
+          · unfold Nft.burn
+            simp only [hcl, hasNFT_of_get w _ _ n hc, Bool.not_true, Bool.false_eq_true, if_false]
+            unfold abs
+            simp only [Nft.deleteOwner, Pnft.deleteOwner, Map.del_mapVals]
+            rfl
+          · unfold Nft.burn
+            simp only [hcl, hasNFT_of_get w _ _ n hc, Bool.not_true, Bool.false_eq_true, if_false]
+            refine wf_nfts w hwf _ _ _ _ ?_
+            intro k n' hk0
+            have hk : (w.nfts.del (Pnft.nftKey m.DenomId m.Id)).get k = some n' := hk0
+            clear hk0
+            by_cases hkk : k = Pnft.nftKey m.DenomId m.Id
+            · subst hkk; rw [Map.get_del_eq] at hk; cases hk
+            · rw [Map.get_del_ne _ _ _ hkk] at hk; exact hwf.nftDec k n' hk
+        · simp only [hcl, Bool.not_false, if_true, Bool.false_eq_true, if_false, Option.isNone_some, SimP, P.pure_eq]; rfl
+      · obtain ⟨e, he'⟩ := burnPNFT_perm bech w hwf m.DenomId m.Id m.Burner n hc hown
+        rw [if_pos hown]
+        simp only [he', P.ok_bind, Option.isNone_some, Bool.not_false, if_true, SimP, P.pure_eq]; rfl
+  · simp only [ho, hg, P.ok_bind, Option.isNone_some, Bool.not_false, if_true, Outcome.err_bind, SimP, P.pure_eq]; rfl
+  · simp only [ho, hg, P.panic_bind, Outcome.panic_bind, SimP]; exact ⟨_, rfl⟩
+
+theorem transferPNFT_none (bech : Go.Bech32) (w : Nft.World) (d i s r : Bytes)
+    (h : w.nfts.get (Pnft.nftKey d i) = none) :
+    ∃ e, pnftkeeper.Keeper.TransferPNFT bech d i s r w = P.ok (some e, w) := by
+  unfold pnftkeeper.Keeper.TransferPNFT
+  obtain ⟨e, he⟩ := getPNFT_none bech w d i h
+  simp only [he, P.ok_bind, Option.isNone_some, Bool.not_false, if_true, P.pure_eq]
+  exact ⟨_, rfl⟩
+
+theorem transferPNFT_perm (bech : Go.Bech32) (w : Nft.World) (hwf : WF w) (d i s r : Bytes) (n : Nft.NFT)
+    (h : w.nfts.get (Pnft.nftKey d i) = some n) (hown : s ≠ (pnftOf bech w d i n).Owner) :
+    ∃ e, pnftkeeper.Keeper.TransferPNFT bech d i s r w = P.ok (some e, w) := by
+  unfold pnftkeeper.Keeper.TransferPNFT
+  simp only [getPNFT_some bech w hwf d i n h, P.ok_bind, Option.isNone_none, Bool.not_true, Bool.false_eq_true, if_false,
+    deref_some, hown, decide_true, if_true, P.pure_eq, ne_eq, not_false_eq_true]
+  exact ⟨_, rfl⟩
+
+theorem transferPNFT_addr (bech : Go.Bech32) (w : Nft.World) (hwf : WF w) (d i s r : Bytes) (n : Nft.NFT)
+    (h : w.nfts.get (Pnft.nftKey d i) = some n) (hown : s = (pnftOf bech w d i n).Owner) (hr : bech.dec r = none) :
+    ∃ e, pnftkeeper.Keeper.TransferPNFT bech d i s r w = P.ok (some e, w) := by
+  unfold pnftkeeper.Keeper.TransferPNFT Go.accAddressFromBech32
+  have hown' : ¬ (s ≠ (pnftOf bech w d i n).Owner) := fun hne => hne hown
+  simp only [getPNFT_some bech w hwf d i n h, P.ok_bind, Option.isNone_none, Bool.not_true, Bool.false_eq_true, if_false,
+    deref_some, hown', decide_false, hr, Option.isNone_some, Bool.not_false, if_true, P.pure_eq]
+  exact ⟨_, rfl⟩
+
+theorem transferPNFT_run (bech : Go.Bech32) (w : Nft.World) (hwf : WF w) (d i s r ra : Bytes) (n : Nft.NFT)
+    (h : w.nfts.get (Pnft.nftKey d i) = some n) (hown : s = (pnftOf bech w d i n).Owner) (hr : bech.dec r = some ra) :
+    pnftkeeper.Keeper.TransferPNFT bech d i s r w =
+      P.ok (if Nft.hasClass w d then (none, Nft.setOwner (Nft.deleteOwner w d i (Nft.getOwner w d i)) d i ra)
+            else (some "nft/4", w)) := by
+  unfold pnftkeeper.Keeper.TransferPNFT Go.accAddressFromBech32
+  have hown' : ¬ (s ≠ (pnftOf bech w d i n).Owner) := fun hne => hne hown
+  simp only [getPNFT_some bech w hwf d i n h, P.ok_bind, Option.isNone_none, Bool.not_true, Bool.false_eq_true, if_false,
+    deref_some, hown', decide_false, hr, P.pure_eq]
+  unfold Nft.transfer
+  rcases Bool.eq_false_or_eq_true (Nft.hasClass w d) with hc | hc
+  · simp only [hc, hasNFT_of_get w d i n h, Bool.not_true, Bool.false_eq_true, if_false, if_true, Option.isNone_none]
+  · simp only [hc, Bool.not_false, if_true, Option.isNone_some, Bool.false_eq_true, if_false]
+
+theorem transfer_refines (bech : Go.Bech32) (he : EncNil bech) (now : Int) (w : Nft.World) (hwf : WF w)
+    (m : pnfttypes.MsgTransferPNFTRequest) :
+    SimP pnfttypes.ErrTransferPNFT w (pnftkeeper.msgServer.TransferPNFT bech (some m) w)
+      (Pnft.handle (codec bech) now (abs w) (toTransfer m)) := by
+  unfold pnftkeeper.msgServer.TransferPNFT Pnft.handle
+  rcases vb_split (transfer_vb bech m) with ⟨ho, hg⟩ | ⟨c, e, ho, hg⟩ | ⟨s, t, ho, hg⟩
+  · simp only [ho, hg, P.ok_bind, Option.isNone_none, Bool.not_true, Bool.false_eq_true, if_false, deref_some,
+      Outcome.ok_bind, Outcome.pure_eq]
+    simp only [toTransfer, getPNFT_abs bech he]
+    cases hc : w.nfts.get (Pnft.nftKey m.DenomId m.Id) with
+    | none =>
+      obtain ⟨e, he'⟩ := transferPNFT_none bech w m.DenomId m.Id m.Sender m.Receiver hc
+      simp only [he', P.ok_bind, Option.isNone_some, Bool.not_false, if_true, Option.map_none, SimP, P.pure_eq]; rfl
+    | some n =>
+      simp only [Option.map_some, owner_abs bech he]
+      by_cases hown : m.Sender = (pnftOf bech w m.DenomId m.Id n).Owner
+      · have hown' : ¬ (m.Sender ≠ (pnftOf bech w m.DenomId m.Id n).Owner) := fun hne => hne hown
+        rw [if_neg hown']
+        have hdec : (codec bech).dec m.Receiver = bech.dec m.Receiver := rfl
+        rw [hdec]
+        cases hr : bech.dec m.Receiver with
+        | none =>
+          obtain ⟨e, he'⟩ := transferPNFT_addr bech w hwf m.DenomId m.Id m.Sender m.Receiver n hc hown hr
+          simp only [he', P.ok_bind, Option.isNone_some, Bool.not_false, if_true, SimP, P.pure_eq]; rfl
+        | some ra =>
+          simp only [transferPNFT_run bech w hwf m.DenomId m.Id m.Sender m.Receiver ra n hc hown hr, P.ok_bind,
+            hasClass_abs]
+          rcases Bool.eq_false_or_eq_true (Nft.hasClass w m.DenomId) with hcl | hcl
+          · simp only [hcl, Bool.not_true, Bool.false_eq_true, if_false, if_true, Option.isNone_none, SimP, P.pure_eq]
+            refine ⟨default, _, rfl, rfl, ?_⟩
+            exact wf_nfts w hwf _ _ _ _ hwf.nftDec
+          · simp only [hcl, Bool.not_false, if_true, Bool.false_eq_true, if_false, Option.isNone_some, SimP, P.pure_eq]; rfl
+      · obtain ⟨e, he'⟩ := transferPNFT_perm bech w hwf m.DenomId m.Id m.Sender m.Receiver n hc hown
+        rw [if_pos hown]
+        simp only [he', P.ok_bind, Option.isNone_some, Bool.not_false, if_true, SimP, P.pure_eq]; rfl
+  · simp only [ho, hg, P.ok_bind, Option.isNone_some, Bool.not_false, if_true, Outcome.err_bind, SimP, P.pure_eq]; rfl
+  · simp only [ho, hg, P.panic_bind, Outcome.panic_bind, SimP]; exact ⟨_, rfl⟩
+
+def pnftTypeUrl : Bytes := [112, 110, 102, 116, 116, 121, 112, 101, 115, 46, 80, 78, 70, 84, 77, 101, 116, 97]
+
+def metaOf (p : pnfttypes.Pnft) : pnfttypes.PNFTMeta :=
+  { Name := p.Name, Description := p.Description, Creator := p.Creator, CreatedAt := p.CreatedAt, Data := p.Data }
+
+def sdkOf (p : pnfttypes.Pnft) (classId : Bytes) : Nft.NFT :=
+  { ClassId := classId, Id := p.Id, Uri := p.Uri, UriHash := p.UriHash,
+    Data := some { TypeUrl := pnftTypeUrl, Value := Go.Proto.marshal (metaOf p) } }
+
+theorem metaN_sdkOf (p : pnfttypes.Pnft) (cid : Bytes) : metaN (sdkOf p cid) = metaOf p := by
+  unfold metaN sdkOf Go.unmarshalE Go.anyValue
+  simp only [Go.LawfulProto.unmarshal_marshal]
+
+theorem dec_sdkOf (p : pnfttypes.Pnft) (cid : Bytes) :
+    (Go.unmarshalE (Go.anyValue (sdkOf p cid).Data) : pnfttypes.PNFTMeta × Go.Err).2 = none := by
+  unfold sdkOf Go.unmarshalE Go.anyValue
+  simp only [Go.LawfulProto.unmarshal_marshal]
+
+theorem mintPNFT_none (bech : Go.Bech32) (w : Nft.World) (p : pnfttypes.Pnft) (h : w.classes.get p.DenomId = none) :
+    ∃ e, pnftkeeper.Keeper.MintPNFT bech (some p) w = P.ok (some e, w) := by
+  unfold pnftkeeper.Keeper.MintPNFT
+  simp only [deref_some, P.ok_bind, getDenom_none w p.DenomId h, Option.isNone_some, Bool.not_false, if_true, P.pure_eq]
+  exact ⟨_, rfl⟩
+
+theorem mintPNFT_perm (bech : Go.Bech32) (w : Nft.World) (hwf : WF w) (p : pnfttypes.Pnft) (c : Nft.Class)
+    (h : w.classes.get p.DenomId = some c) (hown : (metaD c).Owner ≠ p.Creator) :
+    ∃ e, pnftkeeper.Keeper.MintPNFT bech (some p) w = P.ok (some e, w) := by
+  unfold pnftkeeper.Keeper.MintPNFT
+  have hown' : (denomOf c).Owner ≠ p.Creator := hown
+  simp only [deref_some, P.ok_bind, getDenom_some w hwf p.DenomId c h, Option.isNone_none, Bool.not_true,
+    Bool.false_eq_true, if_false, hown', decide_true, if_true, P.pure_eq, ne_eq, not_false_eq_true]
+  exact ⟨_, rfl⟩
+
+theorem mintPNFT_addr (bech : Go.Bech32) (w : Nft.World) (hwf : WF w) (p : pnfttypes.Pnft) (c : Nft.Class)
+    (h : w.classes.get p.DenomId = some c) (hown : (metaD c).Owner = p.Creator) (hr : bech.dec p.Creator = none) :
+    ∃ e, pnftkeeper.Keeper.MintPNFT bech (some p) w = P.ok (some e, w) := by
+  unfold pnftkeeper.Keeper.MintPNFT Go.accAddressFromBech32
+  have hown' : ¬ ((denomOf c).Owner ≠ p.Creator) := fun hne => hne hown
+  simp only [deref_some, P.ok_bind, getDenom_some w hwf p.DenomId c h, Option.isNone_none, Bool.not_true,
+    Bool.false_eq_true, if_false, hown', decide_false, hr, Option.isNone_some, Bool.not_false, if_true, P.pure_eq]
+  exact ⟨_, rfl⟩
+
+theorem mintPNFT_run (bech : Go.Bech32) (w : Nft.World) (hwf : WF w) (p : pnfttypes.Pnft) (c : Nft.Class) (ra : Bytes)
+    (h : w.classes.get p.DenomId = some c) (hown : (metaD c).Owner = p.Creator) (hr : bech.dec p.Creator = some ra) :
+    pnftkeeper.Keeper.MintPNFT bech (some p) w =
+      P.ok (if Nft.hasNFT w c.Id p.Id then (some "nft/5", w) else (none, (Nft.mint w (sdkOf p c.Id) ra).1)) := by
+  unfold pnftkeeper.Keeper.MintPNFT Go.accAddressFromBech32
+  have hown' : ¬ ((denomOf c).Owner ≠ p.Creator) := fun hne => hne hown
+  have hh : Nft.hasClass w c.Id = true := by rw [hwf.classKey _ _ h]; exact hasClass_of_get w _ c h
+  simp only [deref_some, P.ok_bind, getDenom_some w hwf p.DenomId c h, Option.isNone_none, Bool.not_true,
+    Bool.false_eq_true, if_false, hown', decide_false, hr, P.pure_eq]
+  change (if (!Option.isNone (Nft.mint w (sdkOf p c.Id) ra).2) = true then P.ok ((Nft.mint w (sdkOf p c.Id) ra).2, (Nft.mint w (sdkOf p c.Id) ra).1)
+    else P.ok (none, (Nft.mint w (sdkOf p c.Id) ra).1)) = _
+  unfold Nft.mint
+  have hcid : (sdkOf p c.Id).ClassId = c.Id := rfl
+  have hid : (sdkOf p c.Id).Id = p.Id := rfl
+  rw [hcid, hid]
+  rcases Bool.eq_false_or_eq_true (Nft.hasNFT w c.Id p.Id) with hn | hn
+  · simp only [hh, hn, Bool.not_true, Bool.false_eq_true, if_false, if_true, Option.isNone_some, Bool.not_false]
+  · simp only [hh, hn, Bool.not_true, Bool.false_eq_true, if_false, Option.isNone_none]
+
+def mintP (m : pnfttypes.MsgMintPNFTRequest) (w : Nft.World) : pnfttypes.Pnft :=
+  { DenomId := m.DenomId, Id := m.Id, Name := m.Name, Description := m.Description, Uri := m.Uri, UriHash := m.UriHash,
+    Data := m.Data, Creator := m.Creator, CreatedAt := Nft.blockTime w }
+
+theorem hasNFT_abs (w : Nft.World) (d i : Bytes) : Pnft.hasNFT (abs w) d i = Nft.hasNFT w d i := by
+  unfold Pnft.hasNFT Nft.hasNFT Map.has
+  rw [getNft_abs]; simp only [Option.isSome_map]
+
+/-- `now` of the model is the header time of the world the handler runs in -/
+theorem mint_refines (bech : Go.Bech32) (w : Nft.World) (hwf : WF w) (m : pnfttypes.MsgMintPNFTRequest) :
+    SimP pnfttypes.ErrMintPNFT w (pnftkeeper.msgServer.MintPNFT bech (some m) w)
+      (Pnft.handle (codec bech) w.blockTimeNano (abs w) (toMint m)) := by
+  unfold pnftkeeper.msgServer.MintPNFT Pnft.handle
+  rcases vb_split (mint_vb bech m) with ⟨ho, hg⟩ | ⟨c, e, ho, hg⟩ | ⟨s, t, ho, hg⟩
+  · simp only [ho, hg, P.ok_bind, Option.isNone_none, Bool.not_true, Bool.false_eq_true, if_false, deref_some,
+      Outcome.ok_bind, Outcome.pure_eq]
+    simp only [toMint, getClass_abs]
+    change SimP _ w (do let t_1 ← pnftkeeper.Keeper.MintPNFT bech (some (mintP m w)) w; _) _
+    cases hc : w.classes.get m.DenomId with
+    | none =>
+      obtain ⟨e, he'⟩ := mintPNFT_none bech w (mintP m w) hc
+      simp only [he', P.ok_bind, Option.isNone_some, Bool.not_false, if_true, Option.map_none, SimP, P.pure_eq]; rfl
+    | some c =>
+      simp only [Option.map_some]
+      by_cases hown : (metaD c).Owner = m.Creator
+      · have hown' : ¬ ((toClass c).owner ≠ m.Creator) := fun hne => hne hown
+        rw [if_neg hown']
+        have hdec : (codec bech).dec m.Creator = bech.dec m.Creator := rfl
+        rw [hdec]
+        cases hr : bech.dec m.Creator with
+        | none =>
+          obtain ⟨e, he'⟩ := mintPNFT_addr bech w hwf (mintP m w) c hc hown hr
+          simp only [he', P.ok_bind, Option.isNone_some, Bool.not_false, if_true, SimP, P.pure_eq]; rfl
+        | some ra =>
+          simp only [mintPNFT_run bech w hwf (mintP m w) c ra hc hown hr, P.ok_bind, hasNFT_abs]
+          have hid : (toClass c).id = c.Id := rfl
+          have hpid : (mintP m w).Id = m.Id := rfl
+          rw [hid, hpid]
+          rcases Bool.eq_false_or_eq_true (Nft.hasNFT w c.Id m.Id) with hn | hn
+          · simp only [hn, if_true, Option.isNone_some, Bool.not_false, SimP, P.pure_eq]; rfl
+          · simp only [hn, Bool.false_eq_true, if_false, Option.isNone_none, Bool.not_true, SimP, P.pure_eq]
+            have hh : Nft.hasClass w c.Id = true := by rw [hwf.classKey _ _ hc]; exact hasClass_of_get w _ c hc
+            have hm : (Nft.mint w (sdkOf (mintP m w) c.Id) ra).1 =
+                (let w1 := { w with nfts := w.nfts.set (Pnft.nftKey c.Id m.Id) (sdkOf (mintP m w) c.Id) }
+                 let w2 := Nft.setOwner w1 c.Id m.Id ra
+                 { w2 with supply := w2.supply.set c.Id (wrap64 (Nft.getTotalSupply w2 c.Id + 1)) }) := by
+              unfold Nft.mint
+              have hcid : (sdkOf (mintP m w) c.Id).ClassId = c.Id := rfl
+              have hid2 : (sdkOf (mintP m w) c.Id).Id = m.Id := rfl
+              rw [hcid, hid2]
+              simp only [hh, hn, Bool.not_true, Bool.false_eq_true, if_false]
+            rw [hm]
+            refine ⟨default, _, rfl, ?_, ?_⟩
+            · unfold abs
+              simp only [Nft.setOwner, Pnft.setOwner, Map.set_mapVals]
+              have hn' : toNft (sdkOf (mintP m w) c.Id) =
+                  Pnft.newNft c.Id m.Id m.Name m.Description m.Uri m.UriHash m.Data m.Creator w.blockTimeNano := by
+                unfold toNft; rw [metaN_sdkOf]; rfl
+              rw [hn']
+              rfl
+            · refine wf_nfts w hwf _ _ _ _ ?_
+              intro k n' hk0
+              have hk : (w.nfts.set (Pnft.nftKey c.Id m.Id) (sdkOf (mintP m w) c.Id)).get k = some n' := hk0
+              clear hk0
+              by_cases hkk : k = Pnft.nftKey c.Id m.Id
+              · subst hkk; rw [Map.get_set_eq] at hk; cases hk; exact dec_sdkOf _ _
+              · rw [Map.get_set_ne _ _ _ _ hkk] at hk; exact hwf.nftDec k n' hk
+      · obtain ⟨e, he'⟩ := mintPNFT_perm bech w hwf (mintP m w) c hc hown
+        have hown' : (toClass c).owner ≠ m.Creator := hown
+        rw [if_pos hown']
+        simp only [he', P.ok_bind, Option.isNone_some, Bool.not_false, if_true, SimP, P.pure_eq]; rfl
+  · simp only [ho, hg, P.ok_bind, Option.isNone_some, Bool.not_false, if_true, Outcome.err_bind, SimP, P.pure_eq]; rfl
+  · simp only [ho, hg, P.panic_bind, Outcome.panic_bind, SimP]; exact ⟨_, rfl⟩
+
+/-! ## whole histories -/
+
+inductive Req where
+  | createDenom (m : pnfttypes.MsgCreateDenomRequest)
+  | updateDenom (m : pnfttypes.MsgUpdateDenomRequest)
+  | deleteDenom (m : pnfttypes.MsgDeleteDenomRequest)
+  | transferDenom (m : pnfttypes.MsgTransferDenomRequest)
+  | mint (m : pnfttypes.MsgMintPNFTRequest)
+  | transfer (m : pnfttypes.MsgTransferPNFTRequest)
+  | burn (m : pnfttypes.MsgBurnPNFTRequest)
+
+def Req.toMsg : Req → PnftMsg
+  | .createDenom m => toCreateDenom m
+  | .updateDenom m => toUpdateDenom m
+  | .deleteDenom m => toDeleteDenom m
+  | .transferDenom m => toTransferDenom m
+  | .mint m => toMint m
+  | .transfer m => toTransfer m
+  | .burn m => toBurn m
+
+/-- what the SDK keeps of a handler's result: the branch's writes if it returned a nil error, the world before
+otherwise (also when the handler panics) -/
+def commit {ρ : Type} (w : Nft.World) (g : P (Option ρ × Go.Err × Nft.World)) : Nft.World :=
+  match g with
+  | .ok (_, none, w') => w'
+  | _ => w
+
+/-- one delivered transaction at block time `op.1`, run through the translated message server -/
+def goStep (bech : Go.Bech32) (w : Nft.World) (op : Int × Req) : Nft.World :=
+  let w0 := { w with blockTimeNano := op.1 }
+  match op.2 with
+  | .createDenom m => commit w0 (pnftkeeper.msgServer.CreateDenom bech (some m) w0)
+  | .updateDenom m => commit w0 (pnftkeeper.msgServer.UpdateDenom bech (some m) w0)
+  | .deleteDenom m => commit w0 (pnftkeeper.msgServer.DeleteDenom bech (some m) w0)
+  | .transferDenom m => commit w0 (pnftkeeper.msgServer.TransferDenom bech (some m) w0)
+  | .mint m => commit w0 (pnftkeeper.msgServer.MintPNFT bech (some m) w0)
+  | .transfer m => commit w0 (pnftkeeper.msgServer.TransferPNFT bech (some m) w0)
+  | .burn m => commit w0 (pnftkeeper.msgServer.BurnPNFT bech (some m) w0)
+
+/-- what `Pnft.step` keeps of the model handler's outcome -/
+def keep (s : Pnft.State) : Outcome Pnft.State → Pnft.State
+  | .ok s' => s'
+  | _ => s
+
+theorem step_keep (c : CompKey.AddrCodec) (s : Pnft.State) (op : Int × PnftMsg) :
+    Pnft.step c s op = keep s (Pnft.handle c op.1 s op.2) := by
+  unfold Pnft.step keep
+  cases Pnft.handle c op.1 s op.2 <;> rfl
+
+theorem simP_step {ρ : Type} (code : Go.Err) (hcode : code ≠ none) (w : Nft.World) (hwf : WF w)
+    (g : P (Option ρ × Go.Err × Nft.World)) (o : Outcome Pnft.State) (h : SimP code w g o) :
+    abs (commit w g) = keep (abs w) o ∧ WF (commit w g) := by
+  obtain ⟨ce, rfl⟩ : ∃ e, code = some e := by
+    cases code with
+    | none => exact absurd rfl hcode
+    | some e => exact ⟨e, rfl⟩
+  cases o with
+  | ok s' =>
+    obtain ⟨v, w', hg, ha, hw⟩ := h
+    subst hg
+    exact ⟨ha, hw⟩
+  | err c =>
+    have hg : g = P.ok (none, Go.wrap (some ce), w) := h
+    subst hg
+    exact ⟨rfl, hwf⟩
+  | panic p =>
+    obtain ⟨s, hg⟩ := h
+    subst hg
+    exact ⟨rfl, hwf⟩
+
+theorem abs_time (w : Nft.World) (t : Int) : abs { w with blockTimeNano := t } = abs w := rfl
+theorem wf_time (w : Nft.World) (hwf : WF w) (t : Int) : WF { w with blockTimeNano := t } :=
+  ⟨hwf.classKey, hwf.classDec, hwf.nftDec⟩
+
+/-- one transaction: the translated server and the model move to the same state -/
+theorem goStep_abs (bech : Go.Bech32) (he : EncNil bech) (w : Nft.World) (hwf : WF w) (op : Int × Req) :
+    abs (goStep bech w op) = Pnft.step (codec bech) (abs w) (op.1, op.2.toMsg) ∧ WF (goStep bech w op) := by
+  obtain ⟨t, r⟩ := op
+  have hwf0 := wf_time w hwf t
+  rw [step_keep]
+  unfold goStep
+  simp only
+  rw [← abs_time w t]
+  cases r with
+  | createDenom m =>
+    exact simP_step _ (by decide) _ hwf0 _ _ (createDenom_refines bech t _ hwf0 m)
+  | updateDenom m =>
+    exact simP_step _ (by decide) _ hwf0 _ _ (updateDenom_refines bech t _ hwf0 m)
+  | deleteDenom m =>
+    exact simP_step _ (by decide) _ hwf0 _ _ (deleteDenom_refines bech t _ hwf0 m)
+  | transferDenom m =>
+    exact simP_step _ (by decide) _ hwf0 _ _ (transferDenom_refines bech t _ hwf0 m)
+  | mint m =>
+    exact simP_step _ (by decide) _ hwf0 _ _ (mint_refines bech _ hwf0 m)
+  | transfer m =>
+    exact simP_step _ (by decide) _ hwf0 _ _ (transfer_refines bech he t _ hwf0 m)
+  | burn m =>
+    exact simP_step _ (by decide) _ hwf0 _ _ (burn_refines bech he t _ hwf0 m)
+
+/-- **every history**: folding the translated message server over any list of timed requests, from any well-formed
+world, ends in a world that stands for `Pnft.run` of the model on the same history -/
+theorem goRun_abs (bech : Go.Bech32) (he : EncNil bech) (ops : List (Int × Req)) :
+    ∀ (w : Nft.World), WF w →
+      abs (ops.foldl (goStep bech) w) = Pnft.run (codec bech) (abs w) (ops.map fun o => (o.1, o.2.toMsg)) ∧
+      WF (ops.foldl (goStep bech) w) := by
+  induction ops with
+  | nil => intro w hwf; exact ⟨rfl, hwf⟩
+  | cons op ops ih =>
+    intro w hwf
+    obtain ⟨ha, hw⟩ := goStep_abs bech he w hwf op
+    have := ih (goStep bech w op) hw
+    simp only [List.foldl_cons, List.map_cons, Pnft.run]
+    rw [ha] at this
+    exact this
+
+theorem wf_empty : WF ({} : Nft.World) := by
+  constructor <;> intro k x h <;> cases h
 
 end keeper
 end Panacea.Refine.Pnft
